@@ -29,6 +29,10 @@ class ExcelType:
         inst.value = value
         return inst
 
+    def __getnewargs__(self):
+        # Needed to copy, deep-copy and unpickle: __new__ requires the value.
+        return (self.value,)
+
     @classmethod
     def cast(cls, value):
         if isinstance(value, cls):
